@@ -114,11 +114,13 @@ class World:
             # A stated height above the view's real length would index blocks that do not exist; the real sampler draws
             # pseudo-random indices below the stated height, so an adversary who grinds the nonce gets indices that do
             # exist. The oracle grants that: it falls back to the view's real top (the height rule, not a missing ancestor,
-            # must be what refuses such a block).
+            # must be what refuses such a block). Opt-in per harness (World.sample_grant = True): C05's height rule.
             try:
                 top = get(height - 1).hash()
                 below = get(height - 2).hash() if height >= 2 else top
             except KeyError:
+                if not getattr(self, "sample_grant", False):
+                    raise           # default: a stated height without ancestors makes the sampler fail, as the real one does
                 top = get(self.h - 1).hash()
                 below = get(self.h - 2).hash() if self.h >= 2 else top
             self.sample_log.append((height, top))
